@@ -21,16 +21,16 @@ def stats(suffix):
     missed = sum(1 for m in ms if m.get('detection', '').startswith('MISSED'))
     return len(ms), missed
 out = ["## Seeded changes and the checks that catch them\n\n",
- f"{len(rows)} changes written by independent sub-agents (rounds of twenty - one per property and round; from the fifth round on each agent was asked for two changes, kept as `-e`/`-f`, `-g`/`-h`, `-i`/`-j`;\n"
+ f"{len(rows)} changes written by independent sub-agents (rounds of twenty - one per property and round; from the fifth round on each agent was asked for two changes, kept as `-e`/`-f`, `-g`/`-h`, `-i`/`-j`, `-k`/`-l`;\n"
  "later rounds were asked for deep triggers and for a mechanism different from the earlier ones).\n"
  "All were confirmed (`tools/seeded.sh verify`) to compile, to pass the repository's 82 unit tests and\n"
  "doc tests, and to fail their author's demonstration. \"own check\" is the quick check of the property\n"
  "the change was written against; \"all quick checks that alarm\" comes from `tools/seeded_matrix.sh`\n"
  "(`seeded/matrix.tsv`) where it has been run.\n\n"
- + "".join(f"Round `{sfx}`: {stats(sfx)[0]} changes, {stats(sfx)[0] - stats(sfx)[1]} caught as built, {stats(sfx)[1]} missed at first.\n" for sfx in ['-a', '-b', '-c', '-d', '-e', '-f', '-g', '-h', '-i', '-j'] if stats(sfx)[0])
+ + "".join(f"Round `{sfx}`: {stats(sfx)[0]} changes, {stats(sfx)[0] - stats(sfx)[1]} caught as built, {stats(sfx)[1]} missed at first.\n" for sfx in ['-a', '-b', '-c', '-d', '-e', '-f', '-g', '-h', '-i', '-j', '-k', '-l', '-m', '-n'] if stats(sfx)[0])
  + "\nEach miss led to a widening of a check's domain or oracle (never to a special case for the seeded\n"
- "input), after which every change is caught - by the check of its own property, except C19-d, -e, -g, -h and C01-j, which\n"
- "break the property of C11, C09/C10, C12, C16 resp. C17 rather than their own and are caught there - and the unchanged tree is still silent.\n\n",
+ "input), after which every change is caught - by the check of its own property, except C19-d, -e, -g, -h, -l, C01-j and C03-k, which\n"
+ "break the property of another check (C11, C09/C10, C12, C16, C14, C17) rather than their own and are caught there - and the unchanged tree is still silent.\n\n",
  "| seeded | change (what it needs to manifest) | own check | all quick checks that alarm |\n|---|---|---|---|\n"]
 for name, m in rows:
     det = m.get('detection', 'caught as built')
